@@ -143,4 +143,6 @@ def run(ctx):
     rep.floor('R05.1', 'preambles matched', n_pre, 16 * ns)
     rep.floor('R05.1', 'envelope MAC inputs matched', n_aad, 16 * ns)
     rep.floor('R05.3', 'authenticated strings checked', len(seen_strings), 7)
+    from rules import profile
+    profile.check(ctx, rep, 'R05.P', ['creg_finish', 'clog_finish', 'slog_start', 'sreg_start'])
     return rep
